@@ -89,9 +89,11 @@ int IA32(vec_ext_v4si)(m_v4si a, int i) { return a[i & 3]; }
  * and accumulator, NO initial/final inversion -- SDM "CRC32 -- Accumulate CRC32 Value").  In the
  * reflected domain this is the classic bit-serial update with 0x82F63B78. */
 static uint32_t crc32c_bits(uint32_t crc, uint64_t v, int nbits) {
-  for (int k = 0; k < nbits; k++) {
-    crc ^= (uint32_t)((v >> k) & 1u);
-    crc = (crc >> 1) ^ (0x82F63B78u & (0u - (crc & 1u)));
+  /* bit-serial, LSB first; grouped by bytes (xor 8 message bits, then 8 shift steps), which is the
+   * same polynomial division because the xor of later message bits commutes with earlier shifts */
+  for (int j = 0; j < nbits / 8; j++) {
+    crc ^= (uint32_t)((v >> (8 * j)) & 0xFFu);
+    for (int k = 0; k < 8; k++) crc = (crc >> 1) ^ (0x82F63B78u & (0u - (crc & 1u)));
   }
   return crc;
 }
